@@ -133,7 +133,15 @@ def consumer_sites(ctx, module, func):
 
 
 def check_ownership(ctx, only=None, rule='EFF-2'):
-    it, verdicts = iter_ownership(ctx)
+    # what iteration over in-memory results hands out is decided by interpreting FitInfoFile (recfile.py); the syntactic classification of the
+    # yield statements is the fall-back when the interpretation has no verdict
+    from .. import recfile
+    sem = recfile.iteration_verdict(ctx.repo)
+    if sem is not None:
+        it = ctx.fn(ctx.repo.func('fit_info', 'FitInfoFile.__iter__'))
+        verdicts = [(sem[0], sem[1], it.node)]
+    else:
+        it, verdicts = iter_ownership(ctx)
     muts, inplace = fitinfo_mutators(ctx)
     owned = [v for v in verdicts if v[0] == 'caller-owned']
     undec = [v for v in verdicts if v[0] == 'undecided']
